@@ -57,7 +57,8 @@ ASSUMPTIONS = [
 ]
 
 KINDS = 'DABPM'
-TYPE_LETTER = {'D': b'D', 'A': b'A', 'B': b'B', 'P': b'P', 'M': b'M'}
+TYPE_LETTER = {'D': b'D', 'A': b'A', 'B': b'B', 'P': b'P', 'M': b'M', 'N': b'M'}
+# kind 'N' (membytes leg only): a 2-byte memory image whose last byte is the size parameter
 
 
 ###############################################################################
@@ -69,7 +70,9 @@ def payload(idx, n):
     return bytes(alpha[(i * 7 + idx * 13 + i // 62) % len(alpha)] for i in range(n))
 
 
-def mem_pattern(idx, n):
+def mem_pattern(idx, n, kind='M'):
+    if kind == 'N':
+        return bytes([0x55, n])
     return bytes(((i * 7 + idx * 29 + 3) % 251) for i in range(n))
 
 
@@ -107,7 +110,8 @@ def write_tape(s, tape, part, case):
             stmts.extend(program_lines(idx, n))
             stmts.append(b'SAVE "CAS1:%s"%s' % (name, {'A': b',A', 'B': b'', 'P': b',P'}[kind]))
         else:
-            pat = mem_pattern(idx, n)
+            pat = mem_pattern(idx, n, kind)
+            n = len(pat)
             stmts.append(b'DEF SEG=&HB800')
             for i in range(0, n, 40):
                 stmts.append(b':'.join(b'POKE %d,%d' % (4096 + i + j, c) for j, c in enumerate(pat[i:i + 40])))
@@ -133,7 +137,7 @@ def write_tape(s, tape, part, case):
 MSG_RE = re.compile(rb'^(.{8})\.([A-Z]) (Found|Skipped)\.\r?$', re.M)
 
 
-UNIT = {'D': 255, 'A': 255, 'B': 256, 'P': 256, 'M': 256}
+UNIT = {'D': 255, 'A': 255, 'B': 256, 'P': 256, 'M': 256, 'N': 256}
 
 
 def stream_len(kind, n):
@@ -147,17 +151,24 @@ def stream_len(kind, n):
         return 13 + 12 * lines + n + 1
     if kind in 'BP':
         return 15 + 9 * lines + n
+    if kind == 'N':
+        return 2
     return n
 
 
 def size_class(kind, n):
     """Residue class of the stream length w.r.t. the framing unit (255-byte records for data/ASCII
     files, 256-byte blocks for tokenised/protected/memory files): used in keys and coverage classes."""
+    if kind == 'N':
+        return 'last-byte-%s' % ('1A' if n == 0x1a else ('00' if n == 0 else 'other'))
     u = UNIT[kind]
     sl = stream_len(kind, n)
     if sl == 0:
         return 'S=0'
     r = sl % u
+    if kind in 'DA' and r == 0xa5:
+        # the last record then starts with the count byte A5h, which is also the header marker
+        return 'S=k*255+165'
     if r == 0:
         return 'S=k*%d' % u
     if r == 1 and sl > u:
@@ -170,6 +181,17 @@ def size_class(kind, n):
 def sizes_near(kind, targets, lo=0, hi=520):
     """All n in lo..hi whose stream length is one of the targets."""
     return [n for n in range(lo, hi + 1) if stream_len(kind, n) in targets]
+
+
+SPECIAL = ('D:S=k*255', 'A:S=k*255', 'M:S=0', 'D:S=k*255+165', 'A:S=k*255+165')
+
+
+def before(tape, t):
+    """Framing-boundary classes among the files that precede file t on the tape (the reader has to get
+    past all of them): the part of a violation key that names the input class."""
+    cls = sorted(set('%s:%s' % (k, size_class(k, n)) for k, n in tape[:t]))
+    sp = [c for c in cls if c in SPECIAL]
+    return 'after-' + ('+'.join(sp) if sp else ('plain' if t else 'start'))
 
 
 def messages(out):
@@ -188,10 +210,9 @@ def check_messages(part, case, tape, pos, t, out, what):
     if got and got[-1][2] == b'Found' and got[-1][0] == exp[-1][0] and got[-1][1] != exp[-1][1]:
         key = 'messages/wrong-type/%s' % kind
     elif len(got) < len(exp):
-        prev = tape[t - 1] if t > 0 else None
-        key = 'messages/missing/after-%s/%s' % ('%s:%s' % (prev[0], size_class(*prev)) if prev else 'start', kind)
+        key = 'messages/missing/%s/%s' % (before(tape, t), kind)
     else:
-        key = 'messages/unexpected/%s' % kind
+        key = 'messages/unexpected/%s/%s' % (before(tape, t), kind)
     part.violation(key, '%s: tape %r, asked for file %d from position %d: messages %r, expected %r' % (
         what, tape, t, pos, got, exp), case)
     return False
@@ -203,8 +224,7 @@ def read_file(s, part, case, tape, pos, t, what):
     kind, n = tape[t]
     name = fname(t, kind)
     sc = size_class(kind, n)
-    prev = tape[t - 1] if t > 0 else None
-    after = 'after-%s:%s' % (prev[0], size_class(*prev)) if prev else 'first'
+    after = before(tape, t)
     part.n += 1
     nviol0 = sum(part._vcount.values())
 
@@ -270,7 +290,9 @@ def read_file(s, part, case, tape, pos, t, what):
             fail('content/%s/%s/different' % (kind, sc),
                  'LIST gives %d bytes %r..., saved %d bytes %r...' % (len(got), got[:60], len(want), want[:60]))
     else:
-        want = mem_pattern(t, n) + b'\xff\xff'
+        want = mem_pattern(t, n, kind)
+        n = len(want)
+        want += b'\xff\xff'
         got = b''
         for i in range(0, n + 2, 255):
             k = min(255, n + 2 - i)
@@ -280,7 +302,11 @@ def read_file(s, part, case, tape, pos, t, what):
             got += s.get_variable('V$')
         if got[:n] != want[:n]:
             bad = next(i for i in range(n) if got[i] != want[i])
-            fail('content/M/%s/different' % sc, 'first difference at offset %d: read %r, saved %r' % (
+            if bad == n - 1 and want[bad] == 0x1a and got[bad] == 0xff:
+                fail('content/M/last-byte-1A/lost', 'the last byte of the image, 1Ah, was not loaded '
+                     '(read %r, saved %r)' % (got[bad:bad + 1], want[bad:bad + 1]))
+            else:
+                fail('content/M/%s/different' % sc, 'first difference at offset %d: read %r, saved %r' % (
                 bad, got[bad:bad + 8], want[bad:bad + 8]))
         elif got[n:] != want[n:]:
             fail('content/M/%s/overrun' % sc, 'bytes beyond the saved length were overwritten: %r' % got[n:])
@@ -344,11 +370,11 @@ def nameless(s, part, case, tape):
             part.violation('nameless/loaded-non-program', 'LOAD "CAS1:" on %r succeeded: %r' % (tape, r.out), case)
         return
     if r.err is not None:
-        part.violation('nameless/not-found', 'LOAD "CAS1:" on %r gave error %s (%r)' % (tape, r.err, r.out), case)
+        part.violation('nameless/not-found/%s' % before(tape, len(tape)), 'LOAD "CAS1:" on %r gave error %s (%r)' % (tape, r.err, r.out), case)
         return
     lst = H.run(s, fast.TOP + b'LIST').out
     if not any(lst == b''.join(l + b'\r\n' for l in program_lines(i, tape[i][1])) for i in progs):
-        part.violation('nameless/mixed-or-wrong-content',
+        part.violation('nameless/mixed-or-wrong-content/%s' % before(tape, len(tape)),
                        'LOAD "CAS1:" on %r loaded %r..., which is none of the saved programs' % (tape, lst[:80]), case)
 
 
@@ -388,7 +414,8 @@ def legs(ctx):
         if q:
             u = UNIT[k]
             sizes = sorted(set(list(range(0, 6)) + sizes_near(k, range(u - 3, u + 4)) +
-                               sizes_near(k, range(2 * u - 2, 2 * u + 3))))
+                               sizes_near(k, range(2 * u - 2, 2 * u + 3)) +
+                               (sizes_near(k, (0xa4, 0xa5, 0xa6, 255 + 0xa5)) if k in 'DA' else [])))
         else:
             sizes = list(range(0, 521))
         tapes += [((k, n), SECOND[k]) for n in sizes]
@@ -397,7 +424,10 @@ def legs(ctx):
                    bound='2-file CAS tapes (%d): first file of each of the 5 kinds with %s, fixed second '
                          'file of another kind; read in order and skip-to-second' % (
                              len(tapes), 'sizes 0..5 and every size whose stream length is within 3 of the '
-                             'record/block size or within 2 of twice that' if q else 'every size 0..520')))
+                             'record/block size, within 2 of twice that, or (data/ASCII) makes the last record 164..166 bytes' if q else 'every size 0..520')))
+    tapes = [(('N', b), ('D', 3)) for b in range(256)]
+    out.append(Leg('membytes', [('CAS', ['order'], ch) for ch in chunked(tapes, 16)], work_tapes, exhaustive=True,
+                   bound='2-byte memory images whose last byte takes every value 00..FF, followed by a data file'))
     lvl = 0 if q else 2
     tapes = [((k1, n1), (k2, n2)) for k1 in KINDS for k2 in KINDS
              for n1 in boundary_sizes(k1, 1 if q else 2) for n2 in boundary_sizes(k2, lvl)]
